@@ -64,6 +64,7 @@ type c13Scenario struct {
 	SepCtx    bool   `json:"separate_contexts,omitempty"` // Run #1 gets the cancellable context, later Runs a fresh one nobody cancels
 	PanicAt   int    `json:"panic_at_read,omitempty"`     // the memory callback panics at this caller read (Run is left by unwinding)
 	Cause     bool   `json:"cancel_cause,omitempty"`      // the parent is a WithCancelCause context cancelled with a custom cause: Run still returns ctx.Err()
+	BgCtx     bool   `json:"background_context,omitempty"` // Run(context.Background()): Done() is nil, nothing can ever cancel; Run must still leave nothing behind
 	Pending   bool   `json:"refused_request,omitempty"`   // a maskable request stays pending for the whole Run (IFF1 clear, the program never executes EI)
 	Sched     []int  `json:"schedule,omitempty"`
 }
@@ -177,6 +178,8 @@ func c13Body(bg *[65536]uint8, sc *c13Scenario, world **c13World) func(s *sched.
 		if sc.Deadline {
 			d := &deadlineCtx{done: make(chan struct{})}
 			ctx, cancel = d, d.expire
+		} else if sc.BgCtx {
+			ctx, cancel = context.Background(), func() {}
 		} else if sc.Cause {
 			c, cf := context.WithCancelCause(context.Background())
 			ctx, cancel = c, func() { cf(errC13Cause) }
@@ -437,6 +440,11 @@ func checkC13(c *Ctx) {
 							scenarios = append(scenarios, c13Scenario{Prog: pi, Name: progs[pi].name, BP: bp, Canceller: can, R0: r0 + 1})
 						}
 					}
+					if progs[pi].terminating && !dl && can == 0 && bp != 1 {
+						// a context that can never be cancelled (Done() == nil): no goroutine may wait on it for ever
+						scenarios = append(scenarios, c13Scenario{Prog: pi, Name: progs[pi].name + " (context.Background)", BP: bp, Canceller: can, BgCtx: true})
+						scenarios = append(scenarios, c13Scenario{Prog: pi, Name: progs[pi].name + " (context.Background, Run x2)", BP: bp, Canceller: can, BgCtx: true, Runs: 2})
+					}
 					if !dl && can != 0 && bp == 0 {
 						// cancelled with a custom cause: the error Run returns is still the context's Err()
 						scenarios = append(scenarios, c13Scenario{Prog: pi, Name: progs[pi].name + " (WithCancelCause)", BP: bp, Canceller: can, Cause: true})
@@ -555,7 +563,7 @@ func checkC13(c *Ctx) {
 	c.Set("preemption_bound", bound)
 	c.Set("bound_pruned_alternatives", boundHit)
 	c.Set("threads_spawned_by_run_total", spawnedTotal)
-	c.Rule = fmt.Sprintf("the real Run, rewritten at check time by an AST pass so that its go statement, channel receive, atomic operations, cancel() and captured-variable accesses go through a cooperative scheduler (%d files rewritten, %d go statements, %d receives, %d shared accesses instrumented); %d scenarios = programs {JR -2; LDIR BC=0 loop; IN A,(n) loop; NOP;NOP;HALT; DJNZ loop;HALT; JP (IX) loop; IN A,(C);JP (IX) loop; LD R,A loop} (non-terminating ones also from refresh-register values 00,01,7E,FF) x BreakPoints {nil, non-nil never reached, reached} x canceller {absent, before the call, concurrent} x parent context {std WithCancel -> Canceled, WithCancelCause with a custom cause -> still Canceled, harness context with AfterFunc -> DeadlineExceeded}; also with a refused maskable request pending throughout, a device panic at the 3rd read, repeated Runs with shared or separate contexts; threads: caller, the goroutine(s) Run spawns, canceller; scheduling points at every atomic operation, go, receive, cancel() and inside every memory/port callback; ALL schedules with <=%d preemptions (thorough: unbounded for the terminating programs), fair yields at the polling load, horizon 20000 points. Per schedule: error in the allowed set (context error iff cancelled before return and equal to the context's error; nil => HALT executed; ErrBreakPoint => PC in BreakPoints), Run returns whenever cancelled or the program stops, final state = Step-driven twin after a whole number of Steps with the same number of reads, every spawned thread finished (leak), no deadlock, no happens-before race on the captured variables (vector clocks: fork, release/acquire on atomics, cancel->receive). First and every violating schedule are executed twice and must reproduce. Non-trivial: every schedule (counted); distinct outcomes reported.", len(rep.Files), rep.GoStmts, rep.Receives, rep.Wrapped, len(scenarios), bound)
+	c.Rule = fmt.Sprintf("the real Run, rewritten at check time by an AST pass so that its go statement, channel receive, atomic operations, cancel() and captured-variable accesses go through a cooperative scheduler (%d files rewritten, %d go statements, %d receives, %d shared accesses instrumented); %d scenarios = programs {JR -2; LDIR BC=0 loop; IN A,(n) loop; NOP;NOP;HALT; DJNZ loop;HALT; JP (IX) loop; IN A,(C);JP (IX) loop; LD R,A loop} (non-terminating ones also from refresh-register values 00,01,7E,FF) x BreakPoints {nil, non-nil never reached, reached} x canceller {absent, before the call, concurrent} x parent context {std WithCancel -> Canceled, WithCancelCause with a custom cause -> still Canceled, context.Background() (Done() == nil) for the terminating programs, harness context with AfterFunc -> DeadlineExceeded}; also with a refused maskable request pending throughout, a device panic at the 3rd read, repeated Runs with shared or separate contexts; threads: caller, the goroutine(s) Run spawns, canceller; scheduling points at every atomic operation, go, receive, cancel() and inside every memory/port callback; ALL schedules with <=%d preemptions (thorough: unbounded for the terminating programs), fair yields at the polling load, horizon 20000 points. Per schedule: error in the allowed set (context error iff cancelled before return and equal to the context's error; nil => HALT executed; ErrBreakPoint => PC in BreakPoints), Run returns whenever cancelled or the program stops, final state = Step-driven twin after a whole number of Steps with the same number of reads, every spawned thread finished (leak), no deadlock, no happens-before race on the captured variables (vector clocks: fork, release/acquire on atomics, cancel->receive). First and every violating schedule are executed twice and must reproduce. Non-trivial: every schedule (counted); distinct outcomes reported.", len(rep.Files), rep.GoStmts, rep.Receives, rep.Wrapped, len(scenarios), bound)
 	c.Bound = fmt.Sprintf("preemption bound %d, horizon 20000", bound)
 	c.Assume("sequentially consistent interleavings at the instrumented operations; weak-memory effects are outside the model")
 	c.Assume("'bounded delay' is decided in scheduling points (horizon) under fair scheduling, not in seconds")
